@@ -14,7 +14,8 @@ RULE = ("all 8192 identity patterns (4096 squawks x X bit) through squawk(), DF5
         "(+DF20/21 via common.fs/dr/um); CA x every other bit on DF11; every remainder 0..127 and walking high bits as "
         "the DF11 PI overlay; DF 0..31 x both lengths for the RuntimeError guards; distinct = distinct (decoder, field "
         "value) pairs")
-ASSUMPTIONS = ["interrogator remainder 16 (CL=1, IC=0; SI 0 is not an assignable code) is only required not to be "
+ASSUMPTIONS = ["re-entrancy: a decoder call suspended at a source-line boundary while another call runs to completion (one preemption, engine/interleave.py) must still give its isolated answer - the properties are read as covering calls made from several threads",
+               "interrogator remainder 16 (CL=1, IC=0; SI 0 is not an assignable code) is only required not to be "
                "labelled II", "FS/DR/UM text labels are not judged, only the numeric fields"]
 
 CONFIGS = [c for c in os.environ.get("VERIF_CONFIGS", "P,C").split(",") if c]
@@ -263,7 +264,9 @@ def run(ctx):
             tasks.append(("periodic", cfg))
     if ctx.thorough:
         tasks += [("pi24", (lo, lo + (1 << 18))) for lo in range(0, 1 << 24, 1 << 18)]
-    ctx.pmap(w_any, tasks, ambient=True)
+    isP = [t for t in tasks if t[0] != "pi24" and (t[1] == "P" or (isinstance(t[1], tuple) and t[1][0] == "P"))]
+    ctx.pmap(w_any, isP, ambient=True)        # the ambient repeat in configuration P only (the pyx model is slow)
+    ctx.pmap(w_any, [t for t in tasks if t not in isP])
     ctx.cov["exhaustive"] = True
     ctx.cov["configurations"] = cfgs
     ctx.samples += [{"kind": "id", "carrier": "DF21", "squawk": TABLE[0x0AAA], "msg": id_frame("DF21", 0x0AAA, 4)},
